@@ -64,6 +64,10 @@ type fileSpec struct {
 	DeclOrder []string
 	// tokens additionally pre-declared bare (`%token NAME`) before their full declaration
 	PreDecl []string
+	// the union body follows its brace directly ("{ia int}") instead of on a new line
+	UnionTight bool
+	// the file ends after the rules: no second %% (then there is no epilogue)
+	NoSecondSection bool
 }
 
 var actionBodies = []string{
@@ -157,6 +161,8 @@ func genFileSpec(r *rand.Rand, id string) *fileSpec {
 		items = append(items[:pos], append([]string{fmt.Sprintf("p%d", i)}, items[pos:]...)...)
 	}
 	fs.DeclOrder = items
+	fs.UnionTight = r.Intn(3) == 0
+	fs.NoSecondSection = r.Intn(5) == 0
 	for _, t := range c.Tokens {
 		if !t.Lit && (t.Tag != "" || t.Num != 0) && r.Intn(4) == 0 {
 			fs.PreDecl = append(fs.PreDecl, t.Name)
@@ -194,7 +200,11 @@ func (fs *fileSpec) lexemes() []lexeme {
 	w("%{\n" + fs.Prologue + "\n%}\n")
 	if fs.Union != "" {
 		w("%union")
-		w("{\n\t" + fs.Union + "\n}")
+		if fs.UnionTight {
+			w("{" + fs.Union + "}")
+		} else {
+			w("{\n\t" + fs.Union + "\n}")
+		}
 	}
 	for _, name := range fs.PreDecl {
 		w("%token")
@@ -259,7 +269,9 @@ func (fs *fileSpec) lexemes() []lexeme {
 			p(";")
 		}
 	}
-	w("%%")
+	if !fs.NoSecondSection {
+		w("%%")
+	}
 	return ls
 }
 
@@ -283,13 +295,18 @@ func (fs *fileSpec) render(layout []int) string {
 		sb.WriteString(sep)
 		sb.WriteString(l.Text)
 	}
-	sb.WriteString(fs.Epilogue)
+	if !fs.NoSecondSection {
+		sb.WriteString(fs.Epilogue)
+	}
 	return sb.String()
 }
 
 func (fs *fileSpec) want() fileView {
 	c := fs.Case
 	v := fileView{Start: c.Start, Prologue: strings.TrimSpace(fs.Prologue), Union: strings.TrimSpace(fs.Union), Epilogue: fs.Epilogue}
+	if fs.NoSecondSection {
+		v.Epilogue = ""
+	}
 	for i, ru := range c.Rules {
 		rhs := ru.Rhs
 		if rhs == nil {
